@@ -252,6 +252,8 @@ class Interp:
         self.max_depth = 400
         self.fn_name = '?'
         self.frame_stack = []
+        self.loop_index_stack = []     # index terms of the enclosing symbolic loops (arbitrary iteration)
+        self.collect = None            # (code object, YSeq): the generator function under verification
 
     def current_function_name(self):
         return self.fn_name
@@ -341,6 +343,12 @@ class Interp:
         loc = self.bind_args(info, defaults, kwdefaults, args, kwargs)
         first = args[0] if args else None
         frame = Frame(info, loc, enclosing, first, defcls)
+        if info.is_generator and self.collect is not None and self.collect[0] is info and not self.collect[2]:
+            # the generator under verification: its body runs here, yields go to the ghost sequence
+            from .gens import CollectGen
+            self.collect[2] = True
+            frame.gen = CollectGen(self, self.collect[1])
+            return self._run_body(frame)
         if info.is_generator:
             def runner(gen, frame=frame):
                 frame.gen = gen
@@ -521,8 +529,17 @@ class Interp:
         if isinstance(obj, Opaque):
             return self.reg.opaque_getattr(self, obj, name)
         from . import models as _models
+        if isinstance(obj, _models.SIter):
+            if name == 'pos':
+                return wrap(to_z3(obj.pos)) if not isinstance(obj.pos, int) else obj.pos
+            if name == 'xs':
+                return obj.xs
         if isinstance(obj, (_models.SMap, _models.SIter)):
             return SymMethod(obj, name)
+        from .gens import YSeq
+        if isinstance(obj, YSeq) and name in ('src', 'pos_of'):
+            fn = obj.src_fn if name == 'src' else obj.pos_fn
+            return lambda k, fn=fn: wrap(fn(to_z3(k)))
         if isinstance(obj, SuperProxy):
             mro = type(obj.obj).__mro__ if not isinstance(obj.obj, type) else obj.obj.__mro__
             i = mro.index(obj.cls)
